@@ -853,4 +853,501 @@ theorem identUndo_eq_identToGit (src : Bytes) : (identUndo src).getD src = Spec.
   rw [identUndo_eq_collapse, identToGit_eq_collapse]
 
 
+open GixModel.Spec.C43 (identStream identFilterStep IdentFilter IdentMode identHead)
+
+theorem identApply_noDollar (hash : Bytes → Bytes) (src : Bytes) (h : ∀ x ∈ src, isDollar x = false) :
+    identApply hash src = none := by
+  have : splitOnSub tagIdDollar src = none := by
+    have := splitOnSub_append 36 [73, 100, 36] src [] (by intro b hb; simpa [isDollar] using h b hb)
+    simp only [List.append_nil] at this
+    rw [tagIdDollar, this]
+    simp [splitOnSub]
+  simp [identApply, identApplyLoop, this]
+
+theorem countIdentLoop_noDollar : ∀ (src : Bytes) (fuel cnt : Nat), (∀ x ∈ src, isDollar x = false) →
+    countIdentLoop fuel src cnt = cnt := by
+  intro src
+  induction src with
+  | nil => intro fuel cnt _; cases fuel <;> rfl
+  | cons ch cp ih =>
+    intro fuel cnt h
+    cases fuel with
+    | zero => rfl
+    | succ fuel =>
+      have hch : (ch != 36) = true := by
+        have := h ch (by simp)
+        simpa [isDollar] using this
+      simp only [countIdentLoop, hch, if_true]
+      exact ih fuel cnt (fun x hx => h x (by simp [hx]))
+
+theorem identStream_fold_noDollar (identStr : Bytes) : ∀ (l : Bytes) (out : Bytes), (∀ x ∈ l, isDollar x = false) →
+    l.foldl (identFilterStep identStr) { out := out, left := [], mode := .head 0 } =
+      { out := out ++ l, left := [], mode := .head 0 } := by
+  intro l
+  induction l with
+  | nil => intro out _; simp
+  | cons ch rest ih =>
+    intro out h
+    have hch : ((36 : UInt8) == ch) = false := by
+      have := h ch (by simp)
+      simp only [isDollar, beq_eq_false_iff_ne, ne_eq] at this ⊢
+      exact fun e => this e.symm
+    have hstep : identFilterStep identStr { out := out, left := [], mode := .head 0 } ch =
+        { out := out ++ [ch], left := [], mode := .head 0 } := by
+      simp [identFilterStep, identHead, hch, IdentFilter.drain]
+    rw [List.foldl_cons, hstep, ih _ (fun x hx => h x (by simp [hx]))]
+    simp
+
+theorem identStream_noDollar (hex src : Bytes) (h : ∀ x ∈ src, isDollar x = false) : identStream hex src = src := by
+  unfold identStream
+  have := identStream_fold_noDollar ([58, 32] ++ hex ++ Spec.C43.gitIdTail) src [] h
+  have e : ({} : IdentFilter) = { out := [], left := [], mode := .head 0 } := rfl
+  rw [e, this]
+  simp [identHead]
+
+
+
+/-- what `ident::apply` inserts between `$Id` and the closing `$`… as a whole: `$Id: <hex>$` -/
+def expandedId (hex : Bytes) : Bytes := [36, 73, 100] ++ [58, 32] ++ hex ++ [36]
+
+/-- reference semantics of "expand every `$Id$`", deciding at the first `$` -/
+def expand (hex : Bytes) : Nat → Bytes → Bytes
+  | 0, src => src
+  | fuel + 1, src =>
+    match breakAt isDollar src with
+    | none => src
+    | some (pre, _, s1) =>
+      if startsWith [73, 100, 36] s1 then pre ++ expandedId hex ++ expand hex fuel (s1.drop 3)
+      else pre ++ [36] ++ expand hex fuel s1
+
+theorem expand_succ (hex : Bytes) (fuel : Nat) (src : Bytes) :
+    expand hex (fuel + 1) src =
+      match breakAt isDollar src with
+      | none => src
+      | some (pre, _, s1) =>
+        if startsWith [73, 100, 36] s1 then pre ++ expandedId hex ++ expand hex fuel (s1.drop 3)
+        else pre ++ [36] ++ expand hex fuel s1 := rfl
+
+theorem expand_fuel (hex : Bytes) : ∀ (n : Nat) (src : Bytes) (f1 f2 : Nat), src.length ≤ n → src.length < f1 →
+    src.length < f2 → expand hex f1 src = expand hex f2 src := by
+  intro n
+  induction n with
+  | zero =>
+    intro src f1 f2 h h1 h2
+    have : src = [] := List.eq_nil_of_length_eq_zero (by omega)
+    subst this
+    cases f1 <;> cases f2 <;> simp [expand, breakAt]
+  | succ n ih =>
+    intro src f1 f2 h h1 h2
+    cases f1 with
+    | zero => omega
+    | succ f1 =>
+      cases f2 with
+      | zero => omega
+      | succ f2 =>
+        rw [expand_succ, expand_succ]
+        cases hb : breakAt isDollar src with
+        | none => rfl
+        | some r =>
+          obtain ⟨pre, hit, s1⟩ := r
+          have hl := breakAt_length hb
+          simp only
+          split
+          · rw [ih (s1.drop 3) f1 f2 (by simp; omega) (by simp; omega) (by simp; omega)]
+          · rw [ih s1 f1 f2 (by omega) (by omega) (by omega)]
+
+def expandAll (hex : Bytes) (src : Bytes) : Bytes := expand hex (src.length + 1) src
+
+theorem expand_eq_all (hex : Bytes) (f : Nat) (src : Bytes) (h : src.length < f) : expand hex f src = expandAll hex src :=
+  expand_fuel hex src.length src f (src.length + 1) (Nat.le_refl _) h (Nat.lt_succ_self _)
+
+theorem expandAll_noDollar (hex src : Bytes) (h : ∀ x ∈ src, isDollar x = false) : expandAll hex src = src := by
+  simp [expandAll, expand, breakAt_none_of src h]
+
+theorem expandAll_step (hex pre s1 : Bytes) (hpre : ∀ x ∈ pre, isDollar x = false) :
+    expandAll hex (pre ++ 36 :: s1) =
+      if startsWith [73, 100, 36] s1 then pre ++ expandedId hex ++ expandAll hex (s1.drop 3)
+      else pre ++ [36] ++ expandAll hex s1 := by
+  have hb : breakAt isDollar (pre ++ 36 :: s1) = some (pre, 36, s1) := by
+    rw [breakAt_append pre _ hpre]
+    simp [breakAt, isDollar]
+  have hlen : (pre ++ 36 :: s1).length = pre.length + s1.length + 1 := by simp; omega
+  rw [expandAll, expand_succ, hb]
+  simp only
+  split
+  · rw [expand_eq_all hex _ (s1.drop 3) (by rw [hlen]; simp; omega)]
+  · rw [expand_eq_all hex _ s1 (by rw [hlen]; omega)]
+
+theorem expandAll_prefix (hex x y : Bytes) (hx : ∀ b ∈ x, isDollar b = false) :
+    expandAll hex (x ++ y) = x ++ expandAll hex y := by
+  cases hb : breakAt isDollar y with
+  | none =>
+    have hy := breakAt_none hb
+    rw [expandAll_noDollar hex y hy, expandAll_noDollar]
+    intro b hbm
+    rcases List.mem_append.mp hbm with h | h
+    · exact hx b h
+    · exact hy b h
+  | some r =>
+    obtain ⟨pre, hit, s1⟩ := r
+    obtain ⟨hy, hhit, hpre⟩ := breakAt_some hb
+    have h36 : hit = 36 := by simpa [isDollar] using hhit
+    subst h36
+    rw [hy, ← List.append_assoc, expandAll_step hex (x ++ pre) s1, expandAll_step hex pre s1 hpre]
+    · split <;> simp
+    · intro b hbm
+      rcases List.mem_append.mp hbm with h | h
+      · exact hx b h
+      · exact hpre b h
+
+theorem splitOnSub_dollar_dollar (s : Bytes) :
+    splitOnSub tagIdDollar (36 :: s) =
+      if startsWith [73, 100, 36] s then some ([], s.drop 3)
+      else (splitOnSub tagIdDollar s).map (fun r => (36 :: r.1, r.2)) := by
+  simp only [tagIdDollar, splitOnSub, startsWith_cons, beq_self_eq_true, Bool.true_and]
+  split
+  · simp
+  · cases splitOnSub [36, 73, 100, 36] s <;> simp
+
+/-- `find(b"$Id$")` and `expand` at the first `$` -/
+theorem split_expand : ∀ (n : Nat) (cur : Bytes) (hex : Bytes), cur.length ≤ n →
+    (splitOnSub tagIdDollar cur = none → expandAll hex cur = cur) ∧
+    (∀ p q, splitOnSub tagIdDollar cur = some (p, q) →
+      expandAll hex cur = p ++ expandedId hex ++ expandAll hex q ∧ q.length < cur.length) := by
+  intro n
+  induction n with
+  | zero =>
+    intro cur hex h
+    have : cur = [] := List.eq_nil_of_length_eq_zero (by omega)
+    subst this
+    exact ⟨fun _ => rfl, fun p q h => by simp [splitOnSub] at h⟩
+  | succ n ih =>
+    intro cur hex h
+    cases hb : breakAt isDollar cur with
+    | none =>
+      have hnd := breakAt_none hb
+      have hnone : splitOnSub tagIdDollar cur = none := by
+        have := splitOnSub_append 36 [73, 100, 36] cur [] (by intro b hb; simpa [isDollar] using hnd b hb)
+        simp only [List.append_nil] at this
+        rw [tagIdDollar, this]; simp [splitOnSub]
+      exact ⟨fun _ => expandAll_noDollar hex cur hnd, fun p q h => by rw [hnone] at h; simp at h⟩
+    | some r =>
+      obtain ⟨pre, hit, s1⟩ := r
+      obtain ⟨hcur, hhit, hpre⟩ := breakAt_some hb
+      have h36 : hit = 36 := by simpa [isDollar] using hhit
+      subst h36
+      have hl := breakAt_length hb
+      have hsplit : splitOnSub tagIdDollar (pre ++ 36 :: s1) =
+          (splitOnSub tagIdDollar (36 :: s1)).map (fun r => (pre ++ r.1, r.2)) := by
+        rw [tagIdDollar]
+        exact splitOnSub_append 36 [73, 100, 36] pre (36 :: s1) (by intro b hb; simpa [isDollar] using hpre b hb)
+      rw [hcur, hsplit, splitOnSub_dollar_dollar, expandAll_step hex pre s1 hpre]
+      by_cases hs : startsWith [73, 100, 36] s1 = true
+      · simp only [hs, if_true, Option.map_some, List.append_nil]
+        exact ⟨fun h => by simp at h, fun p q h => by
+          simp only [Option.some.injEq, Prod.mk.injEq] at h
+          obtain ⟨rfl, rfl⟩ := h
+          exact ⟨rfl, by simp; omega⟩⟩
+      · simp only [hs, Bool.false_eq_true, if_false]
+        obtain ⟨ih1, ih2⟩ := ih s1 hex (by omega)
+        constructor
+        · intro hnone
+          have : splitOnSub tagIdDollar s1 = none := by
+            cases hfp : splitOnSub tagIdDollar s1 with
+            | none => rfl
+            | some v => simp [hfp] at hnone
+          rw [ih1 this]; simp
+        · intro p q hsome
+          cases hfp : splitOnSub tagIdDollar s1 with
+          | none => simp [hfp] at hsome
+          | some v =>
+            obtain ⟨p', q'⟩ := v
+            simp only [hfp, Option.map_some, Option.some.injEq, Prod.mk.injEq] at hsome
+            obtain ⟨rfl, rfl⟩ := hsome
+            obtain ⟨hc, hlen⟩ := ih2 p' q' hfp
+            rw [hc]
+            exact ⟨by simp, by simp; omega⟩
+
+theorem identApplyLoop_eq (hex : Bytes) : ∀ (n : Nat) (cur buf : Bytes) (fuel : Nat) (found : Bool),
+    cur.length ≤ n → cur.length < fuel →
+    identApplyLoop hex fuel cur buf found =
+      if found || (splitOnSub tagIdDollar cur).isSome then some (buf ++ expandAll hex cur) else none := by
+  intro n
+  induction n with
+  | zero =>
+    intro cur buf fuel found h hf
+    have : cur = [] := List.eq_nil_of_length_eq_zero (by omega)
+    subst this
+    cases fuel with
+    | zero => omega
+    | succ fuel => cases found <;> simp [identApplyLoop, splitOnSub, expandAll, expand, breakAt]
+  | succ n ih =>
+    intro cur buf fuel found h hf
+    cases fuel with
+    | zero => omega
+    | succ fuel =>
+      obtain ⟨h1, h2⟩ := split_expand cur.length cur hex (Nat.le_refl _)
+      simp only [identApplyLoop]
+      cases hfr : splitOnSub tagIdDollar cur with
+      | none =>
+        simp only [Option.isSome_none, Bool.or_false]
+        rw [h1 hfr]
+      | some v =>
+        obtain ⟨p, q⟩ := v
+        obtain ⟨hc, hlen⟩ := h2 p q hfr
+        simp only [Option.isSome_some, Bool.or_true, if_true]
+        rw [ih q _ fuel true (by omega) (by omega), hc]
+        simp [expandedId]
+
+/-- `ident::apply` is `expand` -/
+theorem identApply_eq_expand (hash : Bytes → Bytes) (src : Bytes) :
+    (identApply hash src).getD src = expandAll (hash src) src := by
+  rw [identApply, identApplyLoop_eq (hash src) src.length src [] _ false (Nat.le_refl _) (Nat.lt_succ_self _)]
+  cases hfr : splitOnSub tagIdDollar src with
+  | none =>
+    simp only [Bool.false_or, Option.isSome_none, Bool.false_eq_true, if_false, Option.getD_none]
+    exact ((split_expand src.length src (hash src) (Nat.le_refl _)).1 hfr).symm
+  | some v => simp
+
+
+
+theorem FR_prefix (x y : Bytes) (hx : ∀ b ∈ x, isDollar b = false) :
+    FR (x ++ y) = (FR y).map (prependBefore x) := by
+  cases hb : breakAt isDollar y with
+  | none =>
+    have hy := breakAt_none hb
+    rw [FR_noDollar y hy, FR_noDollar]
+    · rfl
+    · intro b hbm
+      rcases List.mem_append.mp hbm with h | h
+      · exact hx b h
+      · exact hy b h
+  | some r =>
+    obtain ⟨pre, hit, s1⟩ := r
+    obtain ⟨hy, hhit, hpre⟩ := breakAt_some hb
+    have h36 : hit = 36 := by simpa [isDollar] using hhit
+    subst h36
+    have hxp : ∀ b ∈ x ++ pre, isDollar b = false := by
+      intro b hbm
+      rcases List.mem_append.mp hbm with h | h
+      · exact hx b h
+      · exact hpre b h
+    rw [hy, ← List.append_assoc, FR_step (x ++ pre) s1 hxp, FR_step pre s1 hpre]
+    split
+    · cases breakAt isDollarOrLf (s1.drop 3) with
+      | none => rfl
+      | some r2 =>
+        obtain ⟨mid, hit2, post⟩ := r2
+        simp only
+        split
+        · cases FR post <;> simp [prependBefore]
+        · simp [prependBefore]
+    · cases FR s1 <;> simp [prependBefore]
+
+/-- `hex` is what `write_hex_to` produces: no `$`, no line break -/
+def HexLike (hex : Bytes) : Prop := ∀ b ∈ hex, isDollarOrLf b = false
+
+theorem startsWith_expand (hex s1 : Bytes) :
+    startsWith [73, 100, 58] (expandAll hex s1) = startsWith [73, 100, 58] s1 := by
+  cases hb : breakAt isDollar s1 with
+  | none => rw [expandAll_noDollar hex s1 (breakAt_none hb)]
+  | some r =>
+    obtain ⟨pre, hit, s2⟩ := r
+    obtain ⟨hs1, hhit, hpre⟩ := breakAt_some hb
+    have h36 : hit = 36 := by simpa [isDollar] using hhit
+    subst h36
+    rw [hs1, expandAll_step hex pre s2 hpre]
+    -- both strings are `pre ++ 36 :: …`
+    have key : ∀ (t u : Bytes), startsWith [73, 100, 58] (pre ++ 36 :: t) = startsWith [73, 100, 58] (pre ++ 36 :: u) := by
+      intro t u
+      match pre with
+      | [] => simp [startsWith]
+      | [a] => simp [startsWith]
+      | [a, b] => simp [startsWith]
+      | a :: b :: c :: rest => simp [startsWith]
+    split
+    · have : pre ++ expandedId hex ++ expandAll hex (s2.drop 3) =
+          pre ++ 36 :: ([73, 100, 58, 32] ++ hex ++ [36] ++ expandAll hex (s2.drop 3)) := by simp [expandedId]
+      rw [this]; exact key _ _
+    · have : pre ++ [36] ++ expandAll hex s2 = pre ++ 36 :: expandAll hex s2 := by simp
+      rw [this]; exact key _ _
+
+theorem roundtrip_aux (hex : Bytes) (hhex : HexLike hex) : ∀ (n : Nat) (x : Bytes), x.length ≤ n → FR x = none →
+    collapseAll (expandAll hex x) = x := by
+  intro n
+  induction n with
+  | zero =>
+    intro x h _
+    have : x = [] := List.eq_nil_of_length_eq_zero (by omega)
+    subst this; rfl
+  | succ n ih =>
+    intro x h hfr
+    cases hb : breakAt isDollar x with
+    | none =>
+      have hnd := breakAt_none hb
+      rw [expandAll_noDollar hex x hnd, collapseAll_noDollar x hnd]
+    | some r =>
+      obtain ⟨pre, hit, s1⟩ := r
+      obtain ⟨hx, hhit, hpre⟩ := breakAt_some hb
+      have h36 : hit = 36 := by simpa [isDollar] using hhit
+      subst h36
+      have hl := breakAt_length hb
+      rw [hx, FR_step pre s1 hpre] at hfr
+      rw [hx, expandAll_step hex pre s1 hpre]
+      by_cases hsd : startsWith [73, 100, 36] s1 = true
+      · -- `$Id$`: expanded, then collapsed again
+        have hsl := startsWith_length hsd
+        simp only [List.length_cons, List.length_nil] at hsl
+        have hs1 : s1 = [73, 100] ++ 36 :: s1.drop 3 := by
+          have := (List.take_append_drop 3 s1).symm
+          simp only [startsWith, beq_iff_eq, List.length_cons, List.length_nil] at hsd
+          rw [hsd] at this
+          simpa using this
+        have hnc : startsWith [73, 100, 58] s1 = false := by
+          rw [hs1]; simp [startsWith]
+        simp only [hnc, Bool.false_eq_true, if_false] at hfr
+        have hfrs1 : FR s1 = none := by
+          cases hh : FR s1 with
+          | none => rfl
+          | some v => simp [hh] at hfr
+        -- FR of the rest
+        have hfrrest : FR (s1.drop 3) = none := by
+          rw [hs1, FR_step [73, 100] (s1.drop 3) (by intro b hb; simp at hb; rcases hb with rfl | rfl <;> rfl)] at hfrs1
+          by_cases hc : startsWith [73, 100, 58] (s1.drop 3) = true
+          · simp only [hc, if_true] at hfrs1
+            have hrest : s1.drop 3 = [73, 100, 58] ++ (s1.drop 3).drop 3 := by
+              have := (List.take_append_drop 3 (s1.drop 3)).symm
+              simp only [startsWith, beq_iff_eq, List.length_cons, List.length_nil] at hc
+              rw [hc] at this
+              exact this
+            cases hb2 : breakAt isDollarOrLf ((s1.drop 3).drop 3) with
+            | none =>
+              have hnd := noDollar_of_noDollarOrLf (breakAt_none hb2)
+              apply FR_noDollar
+              rw [hrest]
+              intro b hbm
+              rcases List.mem_append.mp hbm with h1 | h1
+              · simp at h1; rcases h1 with rfl | rfl | rfl <;> rfl
+              · exact hnd b h1
+            | some r2 =>
+              obtain ⟨mid, hit2, post⟩ := r2
+              obtain ⟨hdrop, hhit2, hmid⟩ := breakAt_some hb2
+              simp only [hb2] at hfrs1
+              by_cases h10 : hit2 = 10
+              · subst h10
+                simp only [beq_self_eq_true, if_true] at hfrs1
+                have hpost : FR post = none := by
+                  cases hh : FR post with
+                  | none => rfl
+                  | some v => simp [hh] at hfrs1
+                have : s1.drop 3 = ([73, 100, 58] ++ mid ++ [10]) ++ post := by
+                  rw [hrest, hdrop]; simp
+                rw [this, FR_prefix _ _ (by
+                  intro b hbm
+                  simp only [List.mem_append, List.mem_cons, List.mem_singleton] at hbm
+                  rcases hbm with (h1 | h1) | h1
+                  · rcases h1 with rfl | rfl | rfl | h1 <;> first | rfl | simp at h1
+                  · exact noDollar_of_noDollarOrLf hmid b h1
+                  · rcases h1 with rfl | h1 <;> first | rfl | simp at h1), hpost]
+                rfl
+              · have : (hit2 == 10) = false := by simpa using h10
+                simp [this] at hfrs1
+          · simp only [hc, Bool.false_eq_true, if_false] at hfrs1
+            cases hh : FR (s1.drop 3) with
+            | none => rfl
+            | some v => simp [hh] at hfrs1
+        simp only [hsd, if_true]
+        have hform : pre ++ expandedId hex ++ expandAll hex (s1.drop 3) =
+            pre ++ 36 :: ([73, 100, 58] ++ (32 :: hex ++ 36 :: expandAll hex (s1.drop 3))) := by
+          simp [expandedId]
+        rw [hform, collapseAll_step pre _ hpre]
+        have hsw : startsWith [73, 100, 58] ([73, 100, 58] ++ (32 :: hex ++ 36 :: expandAll hex (s1.drop 3))) = true := by
+          simp [startsWith]
+        simp only [hsw, if_true]
+        have hdrop3 : ([73, 100, 58] ++ (32 :: hex ++ 36 :: expandAll hex (s1.drop 3))).drop 3 =
+            (32 :: hex) ++ 36 :: expandAll hex (s1.drop 3) := by simp
+        rw [hdrop3, breakAt_append (32 :: hex) _ (by
+          intro b hbm
+          simp only [List.mem_cons] at hbm
+          rcases hbm with rfl | hbm
+          · rfl
+          · exact hhex b hbm)]
+        simp only [breakAt, isDollarOrLf, beq_self_eq_true, Bool.true_or, if_true, Option.map_some]
+        rw [ih (s1.drop 3) (by simp; omega) hfrrest]
+        conv => rhs; rw [hs1]
+        simp [tagIdDollar]
+      · simp only [hsd, Bool.false_eq_true, if_false]
+        have hform : pre ++ [36] ++ expandAll hex s1 = pre ++ 36 :: expandAll hex s1 := by simp
+        rw [hform, collapseAll_step pre _ hpre, startsWith_expand]
+        by_cases hc : startsWith [73, 100, 58] s1 = true
+        · simp only [hc, if_true] at hfr ⊢
+          have hs1 : s1 = [73, 100, 58] ++ s1.drop 3 := by
+            have := (List.take_append_drop 3 s1).symm
+            simp only [startsWith, beq_iff_eq, List.length_cons, List.length_nil] at hc
+            rw [hc] at this
+            exact this
+          have hsl := startsWith_length hc
+          simp only [List.length_cons, List.length_nil] at hsl
+          have hexp : expandAll hex s1 = [73, 100, 58] ++ expandAll hex (s1.drop 3) := by
+            conv => lhs; rw [hs1]
+            exact expandAll_prefix hex _ _ (by intro b hb; simp at hb; rcases hb with rfl | rfl | rfl <;> rfl)
+          have hd3 : (expandAll hex s1).drop 3 = expandAll hex (s1.drop 3) := by rw [hexp]; simp
+          rw [hd3]
+          cases hb2 : breakAt isDollarOrLf (s1.drop 3) with
+          | none =>
+            have hnd := noDollar_of_noDollarOrLf (breakAt_none hb2)
+            rw [expandAll_noDollar hex _ hnd, hb2]
+            have : expandAll hex s1 = s1 := by
+              rw [hexp, expandAll_noDollar hex _ hnd]; exact hs1.symm
+            rw [this]
+          | some r2 =>
+            obtain ⟨mid, hit2, post⟩ := r2
+            obtain ⟨hdrop, hhit2, hmid⟩ := breakAt_some hb2
+            have hl2 := breakAt_length hb2
+            simp only [List.length_drop] at hl2
+            simp only [hb2] at hfr
+            by_cases h10 : hit2 = 10
+            · subst h10
+              simp only [beq_self_eq_true, if_true] at hfr
+              have hpost : FR post = none := by
+                cases hh : FR post with
+                | none => rfl
+                | some v => simp [hh] at hfr
+              have hexp3 : expandAll hex (s1.drop 3) = mid ++ 10 :: expandAll hex post := by
+                rw [hdrop]
+                have : mid ++ 10 :: post = (mid ++ [10]) ++ post := by simp
+                rw [this, expandAll_prefix hex _ _ (by
+                  intro b hbm
+                  rcases List.mem_append.mp hbm with h1 | h1
+                  · exact noDollar_of_noDollarOrLf hmid b h1
+                  · simp at h1; subst h1; rfl)]
+                simp
+              rw [hexp3, breakAt_append mid _ hmid]
+              simp only [breakAt, isDollarOrLf, show ((10 : UInt8) == 36) = false by decide, beq_self_eq_true,
+                Bool.or_true, if_true, Option.map_some, Bool.false_eq_true, if_false]
+              rw [ih post (by omega) hpost]
+              conv => rhs; rw [hs1, hdrop]
+              simp [tagIdColon]
+            · have : (hit2 == 10) = false := by simpa using h10
+              simp [this] at hfr
+        · simp only [hc, Bool.false_eq_true, if_false] at hfr ⊢
+          have hfrs1 : FR s1 = none := by
+            cases hh : FR s1 with
+            | none => rfl
+            | some v => simp [hh] at hfr
+          rw [ih s1 (by omega) hfrs1]
+          simp
+
+
+theorem identUndo_none_iff (x : Bytes) : identUndo x = none ↔ FR x = none := by
+  rw [identUndo, identUndoLoop_eq x.length x [] _ false (Nat.le_refl _) (Nat.lt_succ_self _)]
+  cases FR x <;> simp
+
+/-- content that `ident::undo` leaves alone survives `ident::apply` followed by `ident::undo` -/
+theorem ident_roundtrip_lemma (hash : Bytes → Bytes) (x : Bytes) (hhex : HexLike (hash x))
+    (hx : identUndo x = none) :
+    (identUndo ((identApply hash x).getD x)).getD ((identApply hash x).getD x) = x := by
+  rw [identUndo_eq_collapse, identApply_eq_expand]
+  exact roundtrip_aux (hash x) hhex x.length x (Nat.le_refl _) ((identUndo_none_iff x).mp hx)
+
 end GixModel.C43
